@@ -34,6 +34,7 @@ func c07Doc(name string, ti vocab.TypeInfo, known bool) map[string]interface{} {
 	if name != "" {
 		d["type"] = name
 	}
+	d["name"] = "marker name"
 	if !known {
 		return d
 	}
@@ -86,6 +87,7 @@ func c07Value(name string, ti vocab.TypeInfo) ap.Item {
 		v.FieldByName("Name").Set(reflect.ValueOf(ap.DefaultNaturalLanguageValue("marker summary")))
 	} else {
 		v.FieldByName("Summary").Set(reflect.ValueOf(ap.DefaultNaturalLanguageValue("marker summary")))
+		v.FieldByName("Name").Set(reflect.ValueOf(ap.DefaultNaturalLanguageValue("marker name")))
 	}
 	setItem := func(f string, it ap.Item) { v.FieldByName(f).Set(reflect.ValueOf(&it).Elem()) }
 	switch ti.GoType {
@@ -140,6 +142,11 @@ func c07CheckMarkers(it ap.Item, name string, ti vocab.TypeInfo) string {
 	nl := sv.FieldByName(txtField).Interface().(ap.NaturalLanguageValues)
 	if len(nl) != 1 || string(nl[0].Value) != "marker summary" {
 		return fmt.Sprintf("%s = %v", txtField, nl)
+	}
+	if ti.GoType != "Link" {
+		if nm := sv.FieldByName("Name").Interface().(ap.NaturalLanguageValues); len(nm) != 1 || string(nm[0].Value) != "marker name" {
+			return fmt.Sprintf("name = %v", nm)
+		}
 	}
 	link := func(f string) string {
 		x := sv.FieldByName(f)
